@@ -72,6 +72,25 @@ class Mismatch(Exception):
     pass
 
 
+def get_module(workroot, tag, units):
+    """build (once, atomically: parallel obligations share the directory) and parse a module"""
+    wd = os.path.join(workroot, tag)
+    ll = os.path.join(wd, "linked.ll")
+    if not os.path.exists(ll):
+        tmp = wd + ".tmp%d" % os.getpid()
+        build.build_module(tmp, units, opt=build.OPT + ["-fno-inline-functions"])
+        try:
+            os.rename(tmp, wd)
+        except OSError:
+            import shutil
+            shutil.rmtree(tmp, ignore_errors=True)
+    return ir.parse_module(open(ll).read())
+
+
+X25519_UNITS = ["crypto_scalarmult/curve25519/ref10/x25519_ref10.c", "sodium/utils.c"]
+ED25519_UNITS = ["crypto_core/ed25519/ref10/ed25519_ref10.c", "sodium/utils.c"]
+
+
 def xname(it, base):
     """defined or merely declared (external) function of the module"""
     for cand in ("@" + base, "@_sodium_" + base):
@@ -253,11 +272,7 @@ def mulmod_mod(mod):
 
 
 def check_ladder(workroot):
-    wd = os.path.join(workroot, "ladder-x25519")
-    ll = os.path.join(wd, "linked.ll")
-    if not os.path.exists(ll):
-        build.build_module(wd, ["crypto_scalarmult/curve25519/ref10/x25519_ref10.c", "sodium/utils.c"], opt=build.OPT + ["-fno-inline-functions"])
-    mod = ir.parse_module(open(ll).read())
+    mod = get_module(workroot, "ladder-x25519", X25519_UNITS)
     T.MODE = "aig"
     aig.reset()
     it = interp.Interp(mod, None)
@@ -288,11 +303,7 @@ def check_ladder(workroot):
 
 def check_invert(workroot):
     """fe25519_invert(out, z) == z^(p-2): the kernel calls are interpreted on exponents of z"""
-    wd = os.path.join(workroot, "ladder-ed25519")
-    ll = os.path.join(wd, "linked.ll")
-    if not os.path.exists(ll):
-        build.build_module(wd, ["crypto_core/ed25519/ref10/ed25519_ref10.c", "sodium/utils.c"], opt=build.OPT + ["-fno-inline-functions"])
-    mod = ir.parse_module(open(ll).read())
+    mod = get_module(workroot, "ladder-ed25519", ED25519_UNITS)
     T.MODE = "term"
     it = interp.Interp(mod, None)
 
@@ -328,11 +339,7 @@ def check_sc_invert(workroot):
     """sc25519_invert(recip, s) == s^(L-2) mod L: sc25519_mul / sc25519_sq are interpreted on exponents of s (the helper
     sc25519_sqmul runs as real code on top of them)"""
     L = (1 << 252) + 27742317777372353535851937790883648493
-    wd = os.path.join(workroot, "ladder-ed25519")
-    ll = os.path.join(wd, "linked.ll")
-    if not os.path.exists(ll):
-        build.build_module(wd, ["crypto_core/ed25519/ref10/ed25519_ref10.c", "sodium/utils.c"], opt=build.OPT + ["-fno-inline-functions"])
-    mod = ir.parse_module(open(ll).read())
+    mod = get_module(workroot, "ladder-ed25519", ED25519_UNITS)
     T.MODE = "term"
     it = interp.Interp(mod, None)
 
@@ -373,11 +380,7 @@ def check_bounds(workroot):
     and ends with every limb of the state at most TIGHT again; the initial state satisfies the bound"""
     from . import limb
     TIGHT = (1 << 51) + (1 << 13)
-    wd = os.path.join(workroot, "ladder-x25519")
-    ll = os.path.join(wd, "linked.ll")
-    if not os.path.exists(ll):
-        build.build_module(wd, ["crypto_scalarmult/curve25519/ref10/x25519_ref10.c", "sodium/utils.c"], opt=build.OPT + ["-fno-inline-functions"])
-    mod = ir.parse_module(open(ll).read())
+    mod = get_module(workroot, "ladder-x25519", X25519_UNITS)
     T.MODE = "term"
     limb.reset()
     it = interp.Interp(mod, None)
